@@ -618,6 +618,12 @@ MUTANTS = [
             return Err(Error::ServerError);
         }
 ''', new=''''''),
+    dict(id="c15-worker-threads-unchecked", prop="C15", file="src/config.rs", expect="C15-V",
+         what="D34 again: worker_threads = 0 is accepted",
+         old='''        if self.general.worker_threads == 0 {''', new='''        if false && self.general.worker_threads == 0 {'''),
+    dict(id="c15-duplicate-usernames-accepted", prop="C15", file="src/config.rs", expect="C15-V",
+         what="D34 again: users named alike in one pool are accepted",
+         old='''            if !usernames.insert(user.username.as_str()) {''', new='''            if !usernames.insert(user.username.as_str()) && self.users.is_empty() {'''),
     # ------------------------------------------------------------------ C12
     dict(id="c12-raw-value", prop="C12", file="src/server.rs", expect="C12-R2",
          what="value interpolated without escaping again",
